@@ -200,4 +200,14 @@ CHECKS = {
         "distinct_measure": "FNV-64 of (drawn configuration, final tips / BFT heights / finalized heights of all nodes)",
         "assumptions": ["a block signed by an honest validator's key and linking to a node's tip is a valid successor for that node (same chain, same state)", "mutants altering several rules at once are not generated; size-limit and fully executable statically-invalid payloads need the transaction workload (see DESIGN)"],
     },
+    "C06": {
+        "profile": "chainsim", "pkg": "chain", "test": "TestC06", "level": "exploration", "env": {"VERIF_PROP": "C06"},
+        "quick": {"workers": 8, "checks": 60}, "thorough": {"workers": 14, "checks": 3000},
+        "timeout": {"quick": "30m", "thorough": "6h"}, "shrinktime": "90s",
+        "rule": "chainsim: per run 2-4 whole nodes and 3-10 validators (drawn weights incl. stand-by generators, drawn certificate/precommit thresholds, up to 3 validator-set changes), chains of 20-110 or 120-260 blocks (the latter leave the first 100 heights, where the commit window arithmetic differs), gossip latency/loss/duplication, partitions, crash+restart. The nodes certify, gossip, pool and aggregate single commits themselves. Added fault: a certificate forger holding every BLS key, acting every 7 s of simulated time. Oracles: (1) after every generator tick, GetAggregateCommit of the node's pool and chain is accepted by the node's own verifyAggregateCommit; (2) forged aggregate commits for the node's chain - drawn height around (certified, precommitted], around the next parameter change and beyond; drawn signer subset; tampering none / signatures over another block / flipped signature bit / a claimed signer that did not sign / bits in descending key order / truncated bits / zero-padded bits - are accepted exactly when the construction says so: un-tampered, signer weight >= certificate threshold of that height, certified < height <= precommitted, height <= (first parameter height > certified+1) - 1; the bit layout is the harness's own (ascending BLS key order, LSB first); zero padding gives no verdict; (3) forged single commits (drawn validator, height, block id, key) offered through the gossip validator: one that is in the pool afterwards must be by a validator with BFT weight at that height and carry its signature over the certificate of the node's own block at that height; (4) no panic in either verifier",
+        "real": ["pkg/consensus (certificate.go: verifyAggregateCommit, GetAggregateCommit, singleCommitValidator, Certify, broadcastCertificate; executer)", "pkg/consensus/certificate (single commits, aggregation, pool)", "pkg/crypto (BLS via blst, aggregation bits)", "pkg/consensus/liskbft (heights, parameter lookups)", "pkg/generator (certifies finalized blocks, embeds aggregate commits)", "pkg/blockchain, pkg/db, pkg/codec", "pebble on the simulated disk"],
+        "stub": ["pkg/p2p (stub)", "pkg/engine wiring", "application module: simmod", "ABI loopback", "clock, randomness"],
+        "distinct_measure": "FNV-64 of (drawn configuration, final tips / BFT heights / finalized heights of all nodes)",
+        "assumptions": ["BLS signing/aggregation primitives (blst through pkg/crypto) are trusted; the oracle never verifies a signature itself, it knows what it signed", "heights, thresholds and parameter sets the oracle uses come from the reference BFT model of the node's tip (DESIGN A.1), not from the node", "genesis height is 0 (a non-zero genesis height does not start, see DESIGN observations)"],
+    },
 }
